@@ -660,3 +660,197 @@ def _restrict_all(s, names):
     for a in s.get("algos", []):
         if a.get("a") == "SelectRegex":
             pass
+
+
+# =========================================================================================
+# leveraged / short portfolios driven through zero equity (C16)
+# =========================================================================================
+def gen_bankrupt_plan(rng, tier="quick"):
+    ndates = rng.randint(5, 16)
+    ntick = rng.randint(2, 3)
+    fspec, fired = gen_feed(rng, ndates, ntick, style=rng.choice(["bday", "gaps"]), faults={}, spread_p=0.3, lo=20.0, hi=200.0)
+    dates, tickers = fspec["dates"], fspec["tickers"]
+    main = tickers[0]
+    short = rng.random() < 0.4
+    lev = rng.choice([2.0, 3.0, 5.0]) if not short else rng.choice([1.0, 2.0, 3.0])
+    # price path of the main ticker: calm, then a shock on date d sized relative to the break-even move
+    d = rng.randint(1, ndates - 1)
+    outcome = rng.choice(["cross", "cross", "cross", "near", "survive"])
+    brk = (1.0 / lev) if not short else (1.0 / lev)  # long: -1/lev wipes out equity; short: +1/lev
+    mag = {"cross": brk * rng.uniform(1.15, 1.8), "near": brk * rng.uniform(0.97, 1.03), "survive": brk * rng.uniform(0.3, 0.8)}[outcome]
+    j = 0
+    p0 = fspec["prices"][0][j]
+    for i in range(ndates):
+        p = p0 * (1 + 0.001 * ((i * 7) % 5 - 2))
+        if i >= d:
+            p = p0 * ((1 - mag) if not short else (1 + mag))
+            if rng.random() < 0.5 and i > d:
+                p = p0 * (1 + 0.002 * (i % 3))  # prices recover afterwards
+        fspec["prices"][i][j] = round(max(p, 0.01), 4)
+    fired["price_shock_" + outcome] = 1
+    w = {main: (-lev if short else lev)}
+    if len(tickers) > 1 and rng.random() < 0.5:
+        w[tickers[1]] = round(rng.uniform(0.05, 0.3), 3)
+    nested = rng.random() < 0.45
+    sched = rng.choice([{"a": "RunOnce"}, {"a": "RunOnDate", "dates": [dates[0]]}, {"a": "RunMonthly", "kw": {"run_on_first_date": True}}])
+    spies = [{"a": "Spy", "id": 0}]
+    if nested:
+        sub = {"k": "S", "name": "lev", "cls": "Strategy", "fi": False, "how": "list", "children": [], "algos": [{"a": "Spy", "id": 2}, {"a": "RunOnDate", "dates": [dates[0]]}, {"a": "WeighSpecified", "weights": w}, {"a": "Rebalance"}]}
+        if rng.random() < 0.5:
+            sub["children"] = [{"k": "X", "name": t, "cls": "Security", "mult": rng.choice([1.0, 10.0]), "decl": "obj"} for t in w]
+        root = {"k": "S", "name": "top", "cls": "Strategy", "fi": False, "how": "list", "children": [sub], "algos": spies + [sched, {"a": "WeighSpecified", "weights": {"lev": rng.choice([1.0, 0.9, 0.5])}}, {"a": "Rebalance"}, {"a": "Spy", "id": 1, "run_always": True}]}
+    else:
+        root = {"k": "S", "name": "top", "cls": "Strategy", "fi": False, "how": "list", "children": [], "algos": spies + [sched, {"a": "WeighSpecified", "weights": w}, {"a": "Rebalance"}, {"a": "Spy", "id": 1, "run_always": True}]}
+        if rng.random() < 0.4:
+            root["children"] = [{"k": "X", "name": t, "cls": "Security", "mult": 1.0, "decl": rng.choice(["obj", "str"])} for t in w]
+    if rng.random() < 0.3:
+        root["algos"].insert(1, chaos_spec(rng, ndates, flows=False))
+    cfg = {"integer": rng.random() < 0.5, "comm": commod.gen(rng, feedmod.min_unit(fspec["prices"])) if rng.random() < 0.5 else None, "capital": rng.choice([1e5, 1e6]), "fi": False, "obs_price": False, "obs_eod": rng.random() < 0.5, "profile": "bankrupt", "outcome": outcome}
+    return {"driver": "engine", "cfg": cfg, "tree": root, "feed": fspec, "fired": fired}
+
+
+def check_terminal(sim):
+    """after the bankruptcy date: no algo of the live tree runs, positions stay zero, value and cash stay constant"""
+    root = sim.root
+    tb = sim.bankrupt_at
+    if tb is None or not root.bankrupt:
+        return
+    late = [r for r in sim.spy_log if r[3] and r[2] > tb]
+    if late:
+        sim.violation("bankrupt_algos_ran", "bankrupt on date #%d but the backtest ran algo %r of %s on date #%d" % (tb, late[0][0], late[0][1], late[0][2]), {})
+    i0 = tb + 1  # row of the bankruptcy date in the node frames (row 0 = synthetic)
+    for n in root.members:
+        if hasattr(n, "capital"):
+            continue
+        pos = sim.series(n, "positions")
+        if (abs(pos[i0:]) >= TOL).any():
+            sim.violation("bankrupt_positions_after", "%s holds a position after the bankruptcy date" % n.full_name, {})
+            return
+    va = sim.series(root, "values")
+    ca = sim.series(root, "cash")
+    tol = REL * (abs(va[i0]) + sim.cfg["capital"] + 1)
+    for i in range(i0 + 1, len(va)):
+        if abs(va[i] - va[i0]) > tol or abs(ca[i] - ca[i0]) > tol:
+            sim.violation("bankrupt_not_constant", "root value / cash move after the bankruptcy date: value[%d]=%r vs %r, cash %r vs %r" % (i, va[i], va[i0], ca[i], ca[i0]), {})
+            return
+
+
+# =========================================================================================
+# plan-controlled rebalancing (C06)
+# =========================================================================================
+def gen_rebalance_plan(rng, tier="quick"):
+    big = tier == "thorough"
+    ndates = rng.randint(4, 24 if big else 14)
+    ntick = rng.randint(2, 5)
+    const = rng.random() < 0.15
+    fspec, fired = gen_feed(rng, ndates, ntick, style=rng.choice(["bday", "gaps"]), faults={}, spread_p=0.3, lo=5.0, hi=300.0)
+    dates, tickers = fspec["dates"], fspec["tickers"]
+    if const:
+        for i in range(1, ndates):
+            fspec["prices"][i] = list(fspec["prices"][0])
+    capital = rng.choice([1e5, 1e6, 33333.0])
+    root = {"k": "S", "name": "top", "cls": "Strategy", "fi": False, "how": "list", "children": []}
+    names = list(tickers)
+    subs = []
+    if rng.random() < 0.4:
+        for i in range(rng.randint(1, 2)):
+            kind = rng.choice(["cash", "invested", "invested"])
+            st = [] if kind == "cash" else [{"a": "RunOnDate", "dates": [dates[rng.randrange(max(1, ndates // 2))]]}, {"a": "SelectThese", "args": [sorted(rng.sample(tickers, rng.randint(1, len(tickers))))]}, {"a": "WeighEqually"}, {"a": "Rebalance"}]
+            root["children"].append({"k": "S", "name": "sub%d" % i, "cls": "Strategy", "fi": False, "how": "list", "children": [], "algos": st})
+            subs.append("sub%d" % i)
+        decl = rng.choice(["str", "obj"])
+        for t in tickers:
+            root["children"].append({"k": "X", "name": t, "cls": "Security", "mult": rng.choice([1.0, 1.0, 10.0]) if decl == "obj" else 1.0, "decl": decl})
+        names = subs + list(tickers)
+    else:
+        decl = rng.choice(["open", "open", "str", "obj", "lazy"])
+        if decl != "open":
+            for t in tickers:
+                root["children"].append({"k": "X", "name": t, "cls": "Security", "mult": rng.choice([1.0, 1.0, 10.0, 0.1]) if decl != "str" else 1.0, "decl": decl})
+    allow_short = rng.random() < 0.4
+
+    def wvec():
+        k = rng.randint(1, len(names))
+        sel = rng.sample(names, k)
+        raw = [rng.random() for _ in sel]
+        tot = sum(raw) / rng.choice([1.0, 1.0, 0.9, 0.5])
+        ws = {n: round(x / tot, 4) for n, x in zip(sel, raw)}
+        if allow_short:
+            for n in sel:
+                if n not in subs and rng.random() < 0.4:
+                    ws[n] = -ws[n]
+        return ws
+
+    rows = sorted(rng.sample(dates, rng.randint(1, len(dates))))
+    data = []
+    for _ in rows:
+        ws = wvec()
+        data.append([ws.get(n) for n in names])
+    extra = {"tw": _frame(names, data, rows=rows)}
+    st = []
+    r = rng.random()
+    if r < 0.6:
+        st.append({"a": "WeighTarget", "args": ["tw"]})
+    else:
+        st += [sched_spec(rng, dates), {"a": "WeighSpecified", "weights": wvec()}]
+    if rng.random() < 0.35:
+        cs = [rng.choice([None, 0.1, 0.25, 0.4]) for _ in range(3)]
+        st.append({"a": "SetTemp", "set": {"cash": cs if rng.random() < 0.5 else rng.choice([0.1, 0.3, 0.5])}})
+    if rng.random() < 0.25:
+        st.insert(0, chaos_spec(rng, ndates, flows=True, capital=capital))
+    if rng.random() < 0.25:
+        st.append({"a": "Wrap", "inner": {"a": "run_always", "algo": {"a": "RebalanceOverTime", "kw": {"n": rng.randint(2, 4)}}}})
+        fired["rebalance_over_time"] = 1
+    else:
+        st.append({"a": "Wrap", "inner": {"a": "Rebalance"}})
+    root["algos"] = st
+    costless = rng.random() < 0.45
+    cfg = {"integer": rng.random() < 0.45, "comm": None if costless else commod.gen(rng, feedmod.min_unit(fspec["prices"]) * 0.1), "capital": capital, "fi": False, "obs_price": False, "obs_eod": rng.random() < 0.3, "profile": "rebalance"}
+    if costless:
+        fspec["bidoffer"] = None
+    return {"driver": "engine", "cfg": cfg, "tree": root, "feed": fspec, "extra": extra, "fired": fired}
+
+
+# =========================================================================================
+# fixed-income engine runs (C17, C20)
+# =========================================================================================
+FI_CLASSES = ["CouponPayingSecurity", "CouponPayingSecurity", "FixedIncomeSecurity", "Security", "HedgeSecurity", "CouponPayingHedgeSecurity"]
+
+
+def gen_fi_plan(rng, tier="quick"):
+    ndates = rng.randint(4, 16)
+    ntick = rng.randint(3, 5)
+    fspec, fired = gen_feed(rng, ndates, ntick, style=rng.choice(["bday", "gaps", "intraday"]), faults={}, spread_p=0.4, lo=80.0, hi=120.0)
+    dates, tickers = fspec["dates"], fspec["tickers"]
+    classes = {t: rng.choice(FI_CLASSES) for t in tickers}
+    classes[tickers[0]] = "CouponPayingSecurity"
+    # coupons: irregular, zero, NaN while flat is tolerated
+    fspec["coupons"] = [[rng.choice([0.0, 0.0, 0.0, 0.01, 0.025, 0.001]) for _ in tickers] for _ in range(ndates)]
+    if rng.random() < 0.6:
+        fspec["cost_long"] = [[rng.choice([0.0, 0.0005, 0.002]) for _ in tickers] for _ in range(ndates)]
+    if rng.random() < 0.6:
+        fspec["cost_short"] = [[rng.choice([0.0, 0.001, 0.003]) for _ in tickers] for _ in range(ndates)]
+    root = {"k": "S", "name": "fi", "cls": "FixedIncomeStrategy", "fi": True, "how": rng.choice(["list", "dict"]), "children": []}
+    for t in tickers:
+        root["children"].append({"k": "X", "name": t, "cls": classes[t], "mult": rng.choice([1.0, 1.0, 1.0, 10.0, 0.5]), "decl": rng.choice(["obj", "obj", "lazy"])})
+    targets = [t for t in tickers if classes[t] in ("CouponPayingSecurity", "FixedIncomeSecurity", "Security")]
+    rows = sorted(rng.sample(dates, rng.randint(1, len(dates))))
+    data = []
+    for _ in rows:
+        sel = rng.sample(targets, rng.randint(1, len(targets)))
+        raw = [rng.random() for _ in sel]
+        tot = sum(raw)
+        ws = {n: round(x / tot, 4) * rng.choice([1, 1, 1, -1]) for n, x in zip(sel, raw)}
+        data.append([ws.get(n) for n in targets])
+    extra = {"tw": _frame(targets, data, rows=rows), "notl": {"kind": "series", "data": [rng.choice([1000.0, 5000.0, 2500.0, 1e5]) for _ in dates]}}
+    st = [{"a": "WeighTarget", "args": ["tw"]}]
+    if rng.random() < 0.8:
+        st.insert(0, {"a": "SetNotional", "args": ["notl"]})
+    if rng.random() < 0.3:
+        st.insert(0, chaos_spec(rng, ndates, flows=False))
+    st.append({"a": "Wrap", "inner": {"a": "Rebalance"}})
+    if rng.random() < 0.3:
+        st.append(chaos_spec(rng, ndates, flows=False))
+    root["algos"] = st
+    cfg = {"integer": rng.random() < 0.4, "comm": commod.gen(rng, 50.0) if rng.random() < 0.5 else None, "capital": rng.choice([0.0, 1e6]), "fi": True, "obs_price": False, "obs_eod": rng.random() < 0.6, "profile": "fi_engine"}
+    return {"driver": "engine", "cfg": cfg, "tree": root, "feed": fspec, "extra": extra, "fired": fired}
